@@ -927,6 +927,7 @@ pub fn targets() -> Vec<Target> {
         tgt!(minicbor::data::Tagged<2, Vec<u64>>, Ty::Tagged(2, bx(Seq(bx(U64))))),
         tgt!(Result<u64, String>, Res(bx(U64), bx(Str))),
         tgt!(std::ops::Range<u64>, Ty::Range(bx(U64))),
+        tgt!(std::ops::Range<Option<u8>>, Ty::Range(bx(Opt(bx(U8))))),
         tgt!(std::time::Duration, Ty::Duration),
     ]);
     v
@@ -1051,6 +1052,7 @@ pub fn shaped_item(rng: &mut Rng) -> Item {
         10 => Item::array((0..rng.below(4)).map(|_| if rng.chance(1, 3) { Item::null() } else { Item::uint(rng.below(256)) }).collect()),
         11 => Item::array((0..rng.below(3)).map(|_| Item::array((0..rng.below(3)).map(|_| uint(rng)).collect())).collect()),
         12 => Item::map((0..rng.below(3)).map(|_| (text(rng), Item::array((0..rng.below(3)).map(|_| uint(rng)).collect()))).collect()),
+        13 if rng.bool() => Item::array(vec![if rng.bool() { Item::null() } else { uint(rng) }, if rng.bool() { Item::null() } else { Item::uint(rng.below(300)) }]),
         13 => { let n = rng.below(3) as usize; Item::bytes(&rng.bytes(n)) }
         _ => {
             // byte strings shaped like C strings: terminator present / missing / doubled, interior NULs
